@@ -16,12 +16,13 @@ func init() {
 			ID: "C02", Title: "Best-path and ECMP selection do not depend on arrival order", Level: "proof",
 			Technique:   "comparator lexicographic-normal-form check on the typed AST (sufficient condition: total preorder), ECMP-key ⊆ decision-key check, type-agreement gate, must-pass-through PathSelection on go/cfg",
 			DesignRef:   "DESIGN.md §3 R-CMP, §4 C02",
-			Decided:     "(1) Path.Select, BGPPath.Select, StaticPath.Select, FIBPath.Select and net.IP.Compare are in lexicographic normal form (every step two mirrored tests on a key of one operand, no step under a guard, final return 0 / mirrored tail call) — by the theorem in engine/core/cmp.go the preference relation is then a total preorder, antisymmetric in sign, with ties exactly between paths equal on all decision keys, so the sorted order of equivalence classes is a function of the set of paths; (2) every key of BGPPath.ECMP / FIBPath.ECMP is a decision key of the corresponding Select, so the counted leading run cannot depend on the order of tied paths; (3) Path.ECMP/Select/Compare/Equal establish p.Type == q.Type before handing q's type-specific part to a type-specific method; (4) in LocRIB.AddPath/RemovePath/ReplacePath every path from the table mutation to propagateChanges passes PathSelection, and the less-function of PathSelection is `Select(i,j) == 1`; (5) the identity relation behind removals (Path.Compare/Equal and everything they reach): every elementwise comparison loop is covered by a test that both sequences have the same length (dominating the loop, conjoined in the later returns, or dominating every call site of a helper taking both sequences), so a sequence that is a proper prefix of another is never \"the same path\".",
+			Decided:     "(1) Path.Select, BGPPath.Select, StaticPath.Select, FIBPath.Select and net.IP.Compare are in lexicographic normal form (every step two mirrored tests on a key of one operand, no step under a guard, final return 0 / mirrored tail call) — by the theorem in engine/core/cmp.go the preference relation is then a total preorder, antisymmetric in sign, with ties exactly between paths equal on all decision keys, so the sorted order of equivalence classes is a function of the set of paths; (2) every key of BGPPath.ECMP / FIBPath.ECMP is a decision key of the corresponding Select, so the counted leading run cannot depend on the order of tied paths; (3) Path.ECMP/Select/Compare/Equal establish p.Type == q.Type before handing q's type-specific part to a type-specific method; (4) in LocRIB.AddPath/RemovePath/ReplacePath every path from the table mutation to propagateChanges passes PathSelection, and the less-function of PathSelection is `Select(i,j) == 1`; (5) the identity relation behind removals (Path.Compare/Equal and everything they reach): every elementwise comparison loop is covered by a test that both sequences have the same length (dominating the loop, conjoined in the later returns, or dominating every call site of a helper taking both sequences), so a sequence that is a proper prefix of another is never \"the same path\"; every such function reads the same fields on both operands (no field compared with itself).",
 			NotDecided:  "correctness of sort.Slice (trusted); that attribute values are what the wire carried.",
 			TrustedBase: append([]string{"theorem: a comparator in lexicographic normal form is a total preorder (proof in engine/core/cmp.go)", "sort.Slice sorts correctly for a strict weak order"}, stdTrusted...),
 		},
 		Run: runC02,
 		Controls: []Control{
+			{Name: "source-compared-with-itself", File: "route/bgp_path.go", Old: "\tif b.Source.Compare(c.Source) != 0 {", New: "\tif b.Source.Compare(b.Source) != 0 {", Expect: "identity-reads-both-operands"},
 			{Name: "cluster-list-equality-without-length", File: "route/bgp_path.go", Old: "\tif len(*b.ClusterList) != len(*c.ClusterList) {\n\t\treturn false\n\t}\n", New: "", Expect: "identity-compares-whole-sequences"},
 			{Name: "refactor-equality-length-checked-last", Silent: true, File: "route/bgp_path.go", Old: "\tif len(*b.ClusterList) != len(*c.ClusterList) {\n\t\treturn false\n\t}\n\n\tfor i := range *b.ClusterList {\n\t\tif (*b.ClusterList)[i] != (*c.ClusterList)[i] {\n\t\t\treturn false\n\t\t}\n\t}\n\n\treturn true\n", New: "\tfor i := range *b.ClusterList {\n\t\tif i >= len(*c.ClusterList) || (*b.ClusterList)[i] != (*c.ClusterList)[i] {\n\t\t\treturn false\n\t\t}\n\t}\n\n\treturn len(*b.ClusterList) == len(*c.ClusterList)\n"},
 			{Name: "select-guard-over-both-operands", File: "route/bgp_path.go", Old: "\tif c.BGPPathA.MED > b.BGPPathA.MED {\n\t\treturn 1\n\t}\n\n\tif c.BGPPathA.MED < b.BGPPathA.MED {\n\t\treturn -1\n\t}\n\n\t// d)", New: "\tif c.BGPPathA.MED != 0 && b.BGPPathA.MED != 0 {\n\tif c.BGPPathA.MED > b.BGPPathA.MED {\n\t\treturn 1\n\t}\n\n\tif c.BGPPathA.MED < b.BGPPathA.MED {\n\t\treturn -1\n\t}\n\t}\n\n\t// d)", Expect: "cmp-normal-form"},
@@ -82,6 +83,7 @@ func analyseComparators(c *core.Ctx) *cmpSet {
 func runC02(c *core.Ctx) {
 	p := c.P
 	identityEquality(c)
+	identityOperandCoverage(c, "identity-reads-both-operands")
 	cs := analyseComparators(c)
 	c.Floor("cmp-normal-form", 20)
 	for _, k := range sortedKeys(cs.forms) {
